@@ -102,6 +102,51 @@ def law_event(K, eid, args):
     return ev
 
 
+def lawrp_event(K, eid, alg, keylists):
+    """C04 on kingdon's OWN symbol class: multivectors whose coefficients are RationalPolynomial symbols (what
+    register(symbolic=True) and code generation compute with).  Sums, differences and negation, the sum once more, and the
+    operands read again afterwards (no operation may change its operands)."""
+    from kingdon.polynomial import RationalPolynomial
+    from drive_session import sympy_to_G
+    sym2id = {}
+    mvs = []
+    for i, keys in enumerate(keylists):
+        letter = 'ab'[i]
+        for k in keys:
+            sym2id[letter + alg.bin2canon[int(k)][1:]] = (i + 1) * 1000 + int(k) + 1
+        mvs.append(alg.multivector(name=letter, keys=tuple(int(k) for k in keys), symbolcls=RationalPolynomial.fromname))
+    x, y = mvs
+
+    def enc(mv):
+        cs = []
+        for v in mv.values():
+            cs.append(sympy_to_G(v.tosympy() if hasattr(v, 'tosympy') else v, sym2id))
+        return [int(k) for k in mv.keys()], cs
+    ev = {'id': eid, 'kind': 'lawrp', 'op': 'lawrp', 'raised': '', 'params': []}
+    recs = {'x': enc(x), 'y': enc(y)}
+    try:
+        s_ = x + y
+        recs['sum'] = enc(s_)
+        recs['diff'] = enc(x - y)
+        recs['sum2'] = enc(x + y)
+        recs['back'] = enc(s_ - x)
+        recs['neg'] = enc(-x)
+        recs['rev'] = enc(~x)
+    except (ValueError, K.EncodeError):
+        raise K.EncodeError('not encodable')
+    except Exception as e:   # noqa: BLE001
+        ev['raised'] = type(e).__name__
+        for k in ('sum', 'diff', 'sum2', 'back', 'neg', 'rev'):
+            recs.setdefault(k, recs['x'])
+    recs['x_after'], recs['y_after'] = enc(x), enc(y)
+    ev['ring'] = 'rat'
+    for k, (keys, cs) in recs.items():
+        ev[k] = {'keys': keys, 'coefs': [c.to_json('rat') for c in cs]}
+    ev['args'] = [ev['x'], ev['y']]
+    ev['res'] = ev['sum']
+    return ev
+
+
 def law3_event(K, eid, args):
     """C03: the products of x and y as the library computed them, recorded together."""
     x, y = args
@@ -145,6 +190,11 @@ def run_job(job):
         args = [K.operand(alg, spec, n + 1) for n, spec in enumerate(keylists)]
         signal.alarm(budget)
         try:
+            if op == 'lawrp':
+                ev = lawrp_event(K, eid, alg, keylists)
+                signal.alarm(0)
+                events.append(ev)
+                continue
             if op in ('law', 'law3'):
                 ev = law_event(K, eid, args) if op == 'law' else law3_event(K, eid, args)
                 signal.alarm(0)
